@@ -353,3 +353,169 @@ _run_c11c = run
 def run(ctx):  # noqa: F811
     _run_c11c(ctx)
     r11_5(ctx, ctx.model)
+
+
+# documented negative log-pdf per pixel, up to X-independent terms, in the CONSTRUCTOR's parameter names (class docstrings)
+NLL = {
+    "PoissonianEnergy": "X - d*log(X)",
+    "InverseGammaEnergy": "(alpha + 1)*log(X) + beta/X",
+    "StudentTEnergy": "(theta + 1)/2*log(1 + X**2/theta)",
+    "BernoulliEnergy": "-d*log(X) - (1 - d)*log(1 - X)",
+    "CategoricalEnergy": "-d*log(X)",
+}
+
+
+def _init_paths(stmts, conds=()):
+    """paths through a constructor body: lists of (plain statements, branch facts); paths that raise are dropped"""
+    paths = [([], list(conds))]
+    for st in stmts:
+        new = []
+        for seq, cs in paths:
+            if isinstance(st, ast.Raise):
+                continue
+            if isinstance(st, ast.If):
+                for body, pol in ((st.body, True), (st.orelse, False)):
+                    for s2, c2 in _init_paths(body, ()):  # sub-paths
+                        new.append((seq + s2, cs + [(src(st.test), pol)] + c2))
+                # a body that raises on every sub-path contributes nothing (dropped inside the recursion)
+            else:
+                new.append((seq + [st], cs))
+        paths = new
+    return paths
+
+
+def r11_6(ctx, m):
+    from .c03 import _load_sympy
+    from ..fieldsym import FieldSym, NotUnderstood
+    ctx.rule("R11.6", "negative log-pdf per energy with the constructor state resolved: along every non-raising path through "
+                      "__init__ the attributes read by apply() are expressed in the constructor's parameters (Field(dom, "
+                      "np.full(shape, v)) reads per pixel as v), and the energy term of apply() then differs from the documented "
+                      "-log pdf only by a term independent of the parameter field (d/dX of the difference is 0; sympy as normaliser)", floor=5)
+    sp = _load_sympy()
+    if sp is None:
+        ctx.und("R11.6", f"{EO}::sympy", "sympy not importable", EO)
+        return
+
+    class FS(FieldSym):
+        def __init__(self, *a, **k):
+            super().__init__(*a, **k)
+            self.attrs = {}
+
+        def ev(self, e, env):
+            if isinstance(e, ast.Attribute) and isinstance(e.value, ast.Name) and e.value.id == "self" and e.attr in self.attrs:
+                return self.attrs[e.attr]
+            if isinstance(e, ast.Call) and call_name(e) == "Field" and len(e.args) == 2 and not e.keywords:
+                return self.ev(e.args[1], env)
+            return super().ev(e, env)
+
+    for cname, spec in NLL.items():
+        C = m.cls(EO, cname)
+        ini, ap = C.methods.get("__init__"), C.methods.get("apply")
+        if ini is None or ap is None:
+            ctx.und("R11.6", f"{C.key}::-log pdf", "__init__/apply missing", C)
+            continue
+        ctx.saw_func(ini)
+        ctx.saw_func(ap)
+        params = [p for p in ini.params()[1:]]
+        xn = ap.params()[1]
+        seen = set()
+        for seq, conds in _init_paths(ini.node.body):
+            fs = FS(sp, facts={"self._cplx": False, f"{xn}.want_metric": False})
+            env = {p: sp.Symbol(p, positive=True) for p in params}
+            attrs, written = {}, set()
+            for st in seq:
+                if not (isinstance(st, ast.Assign) and len(st.targets) == 1):
+                    continue
+                t = st.targets[0]
+                try:
+                    v = fs.ev(st.value, env)
+                except NotUnderstood:
+                    v = None
+                if isinstance(t, ast.Name):
+                    if v is None:
+                        env.pop(t.id, None)
+                    else:
+                        env[t.id] = v
+                elif isinstance(t, ast.Attribute) and src(t.value) == "self":
+                    written.add(t.attr)
+                    if v is None:
+                        attrs.pop(t.attr, None)
+                    else:
+                        attrs[t.attr] = v
+            fs.attrs = attrs
+            sig = tuple(sorted((k, str(v)) for k, v in attrs.items()))
+            if sig in seen:
+                continue
+            seen.add(sig)
+            rel = [("" if pol else "not ") + c for c, pol in conds if any(p in c for p in params) and "isinstance" not in c.split("(")[0] + "isinstance"[:0]]
+            rel = [r for r in rel if "isscalar" in r or "isinstance" in r]
+            key = f"{C.key}::apply() == -log pdf + const [{'; '.join(rel) or 'all paths'}]"
+            try:
+                E, _ = fs.run(ap.node.body, {xn: fs.X})
+            except NotUnderstood as exc:
+                ctx.und("R11.6", key, f"term not understood: {exc}", C)
+                continue
+            if E is None:
+                ctx.und("R11.6", key, "no returned term", C)
+                continue
+            opaque = [s_ for s_ in E.free_symbols if str(s_) not in params and str(s_) != "X"]
+            if opaque:
+                ctx.und("R11.6", key, f"attributes {sorted(map(str, opaque))} are not expressed in the constructor's parameters on this path", C)
+                continue
+            loc = {p: env_p for p, env_p in ((p, sp.Symbol(p, positive=True)) for p in params)}
+            loc["X"] = fs.X
+            want = sp.sympify(spec, locals=loc)
+            diff = sp.simplify(sp.diff(E - want, fs.X))
+            if diff != 0:
+                free = sorted(diff.free_symbols, key=str)
+                pts = [sp.Rational(1, 3), sp.Rational(2, 7), sp.Rational(3, 5), sp.Rational(5, 11)]
+                zero = all(sp.simplify(diff.subs({s_: pts[(i + j) % len(pts)] for j, s_ in enumerate(free)})) == 0 for i in range(3))
+            else:
+                zero = True
+            ctx.check("R11.6", key, bool(zero), f"E = {E}; documented -log pdf = {want}", C, ap.node)
+
+
+def r11_7(ctx, m):
+    """integer event/count data never enters integer arithmetic"""
+    ctx.rule("R11.7", "energies whose constructor demands integer data (np.issubdtype(d.dtype, np.integer)): wherever apply() uses "
+                      "the stored data in +,-,* arithmetic the other operand is a float (float literal or float-valued term), so the "
+                      "result leaves the data's integer dtype (d - 1 on unsigned data wraps to the maximum of the dtype)", floor=1)
+    subs = [c for c in m.module(EO).classes.values() if "apply" in c.methods and "__init__" in c.methods]
+    for C in subs:
+        ini = C.methods["__init__"]
+        ints = set()
+        for x in ast.walk(ini.node):
+            if isinstance(x, ast.Call) and src(x.func) in ("np.issubdtype", "numpy.issubdtype") and len(x.args) == 2 and "integer" in src(x.args[1]):
+                a = x.args[0]
+                if isinstance(a, ast.Attribute) and a.attr == "dtype" and isinstance(a.value, ast.Name):
+                    ints.add(a.value.id)
+        if not ints:
+            continue
+        attrs = {src(st.targets[0]) for st in ast.walk(ini.node) if isinstance(st, ast.Assign) and len(st.targets) == 1
+                 and isinstance(st.targets[0], ast.Attribute) and isinstance(st.value, ast.Name) and st.value.id in ints}
+        ap = C.methods["apply"]
+        ctx.saw_func(ap)
+        for b in ast.walk(ap.node):
+            if not (isinstance(b, ast.BinOp) and isinstance(b.op, (ast.Add, ast.Sub, ast.Mult))):
+                continue
+            for d_, o in ((b.left, b.right), (b.right, b.left)):
+                if src(d_) not in attrs:
+                    continue
+                key = f"{ap.key}::`{src(b)}` leaves the integer dtype of {src(d_)}"
+                if isinstance(o, ast.Constant) and isinstance(o.value, float):
+                    ctx.ok("R11.7", key, "float literal", ap, b)
+                elif isinstance(o, ast.Constant) and isinstance(o.value, int) and not isinstance(o.value, bool):
+                    ctx.bad("R11.7", key, f"integer literal {o.value}: the arithmetic stays in the data's dtype and wraps for unsigned data", ap, b)
+                elif isinstance(o, ast.UnaryOp) and isinstance(o.operand, ast.Constant) and isinstance(o.operand.value, int):
+                    ctx.bad("R11.7", key, "integer literal: the arithmetic stays in the data's dtype and wraps for unsigned data", ap, b)
+                else:
+                    ctx.und("R11.7", key, f"dtype of `{src(o)}` not known", ap, b)
+
+
+_run_c11d = run
+
+
+def run(ctx):  # noqa: F811
+    _run_c11d(ctx)
+    r11_6(ctx, ctx.model)
+    r11_7(ctx, ctx.model)
